@@ -24,8 +24,10 @@ validates cached bytecode by exactly that key, and no code in mako can repair a 
 cause.  Mako's own writes cannot collide any more: the entry is removed after every (re)write.
 OPEN: nothing - no recorded finding of C15 is left.  `known_findings.json` lists the three repaired ones under
 "fixed" (short write ignored; stale bytecode after a same-second rewrite; a re-spelled file name regenerated
-the module): undoing a repair breaks `writeLoops_on` / `dropsBytecode_on` / `dropsBytecodeHook_on` /
-`respelled_name_reused_regression`, and the oracle streams keep the witnesses.
+the module): undoing a repair breaks a `decide`d obligation of the lemma files, where the build then stops -
+`writeLoops_on`, `dropsBytecode_on` / `dropsBytecodeHook_on` (ModFile/LemmasCoh.lean), `fileCmpNormalised_on`
+(ModFile/LemmasConstruct.lean; `respelled_name_reused_regression` below states the same repair at property
+level and would fail next) - and the oracle streams keep the witnesses.
 -/
 namespace MakoModel.C15
 open MakoModel.ModFile MakoModel.Generated.ModFile
@@ -40,9 +42,11 @@ see exactly that.) -/
 theorem mtimes_whole_seconds : mtimesWholeSeconds = true := by decide
 
 /-- Regenerated fact: `_CompileContext` stores the template file name unchanged, so the name a module records
-(`_template_filename`) is the very string the Template was given - which is what the re-check compares it
-with.  (Code that records a rewritten name - absolute, normalised - makes every Template given a relative or
-un-normalised name regenerate on each construction, twice when the module is missing: `recordedName`.) -/
+(`_template_filename`) is the very string the Template was given - which is what the re-check after loading
+compares it with (up to `os.path.normpath`).  Code that records a rewritten name with another normalised path -
+the absolute name for a relative one - would make every Template given such a name regenerate on each
+construction (twice when the module is missing); that is the dead `else` branch of `recordedName`.  The lemma
+files use this fact as `recordsFilenameVerbatim_on`. -/
 theorem records_filename_verbatim : recordsFilenameVerbatim = true := by decide
 
 /-- For every history and the world it reaches: a construct without faults writes the module iff it is
